@@ -17,7 +17,7 @@ theorem inv_step (s : State) (i : Input) (h : Inv s) (ha : Allowed s i) : Inv (s
   | connectionEstablished peer openAns => exact inv_connectionEstablished s peer openAns h
   | connectionClosed peer => exact inv_connectionClosed s peer h
   | dialFailure peer => exact inv_dialFailure s peer h
-  | outboundSubstream peer sid => exact inv_outboundSubstream s peer sid h
+  | outboundSubstream peer sid fb => exact inv_outboundSubstream s peer sid fb h
   | substreamOpenFailure sid error => exact inv_substreamOpenFailure s sid error h
   | inboundSubstream peer => exact inv_inboundSubstream s peer h
   | futureDone f res => exact inv_substreamEvent s f res h ha.1 ha.2.1
